@@ -18,6 +18,10 @@ def aerase {β : Type} (k : String) : List (String × β) → List (String × β
   | [] => []
   | (k', v') :: r => if k' = k then r else (k', v') :: aerase k r
 
+/-- remove every occurrence of `k` -/
+def aeraseAll {β : Type} (k : String) (l : List (String × β)) : List (String × β) :=
+  l.filter (fun kv => kv.1 ≠ k)
+
 /-- `dict[k] = v`: replace in place when present, else append (Python dict order) -/
 def aset {β : Type} (k : String) (v : β) (l : List (String × β)) : List (String × β) :=
   match alookup k l with
